@@ -553,3 +553,166 @@ def rule_source_and_ids(ctx: Ctx, out: Collector) -> None:
         else:
             out.bad('VW-8', cons, p.loc(sc.module, sc.node), 'node names are free text; the edge id is the two node ids joined by a separator '
                     'that may occur in them, so two different DAG edges can get the same id: ' + collisions[0])
+
+
+def rule_type_table(ctx: Ctx, out: Collector) -> None:
+    """VW-9: the node-type table covers every type that occurs on a node entry.  The node generator and the type-table
+    generator are interpreted over one DAG whose nodes declare a library NodeType member, a plain string, a member of a
+    project-defined (str, Enum) class and no type at all, plus a synthetic node; a (str, Enum) member counts as equal to its
+    value (that is how it compares and serialises)."""
+    from ..absint import AObj, Interp, Oracle, TOP, enumerate_outcomes
+    p = ctx.p
+    ci = _config_class(ctx)
+    gen = ci.methods.get('generate')
+    if gen is None:
+        raise AnalysisError('GraphConfigImpl.generate not found')
+    roles = {role: fid for fid, role in _generator_roles(ctx, gen).items()}
+    nt = next((c for c in p.classes_by_name.get('NodeType', []) if c.module.name.endswith('node.enums')), None)
+    if nt is None:
+        raise AnalysisError('NodeType enum not found (VW-9 anchor vanished)')
+
+    node_map, graph_nodes, switch_member = _viewer_world(nt)
+
+    def run(oracle: Oracle):
+        stubs = _viewer_stubs(ctx, nt, ci, switch_member)
+        interp = Interp(p, oracle, stubs=stubs, ext_stubs={'inspect.getdoc': lambda a, k: 'doc'})
+        graph = AObj(('ext', 'networkx.DiGraph'), {'nodes': {n: {} for n in graph_nodes}, 'edges': {}})
+        dag = AObj(('ext', 'DAG'), {'graph': graph, 'node_map': dict(node_map)})
+        obj = AObj(ci, {'_dag': dag})
+        nodes = interp.call_unit(p.functions[roles['nodes']], [], {}, obj)
+        table = interp.call_unit(p.functions[roles['node_types']], [], {}, obj)
+        return nodes, table
+
+    def same(t, k) -> bool:
+        if t is k:
+            return True
+        tv = t.attrs.get('value') if isinstance(t, AObj) else t
+        kv = k.attrs.get('value') if isinstance(k, AObj) else k
+        return isinstance(tv, str) and isinstance(kv, str) and tv == kv
+    problems = []
+    for o in enumerate_outcomes(run):
+        if o[0] != 'value':
+            problems.append(f'generation fails: {o[1]}')
+            continue
+        nodes, table = o[1]
+        if not isinstance(table, dict) or not isinstance(nodes, (list, tuple)):
+            raise AnalysisError('the generators do not return a list of entries and a table (VW-9 undecided)')
+        for entry in nodes:
+            t = getattr(entry, 'attrs', {}).get('type')
+            if t is None or t is TOP:
+                continue
+            if not any(same(t, k) for k in table):
+                problems.append(f'node {entry.attrs.get("id")} has type {t!r}; the table has {sorted(map(repr, table))}')
+        for k, v in table.items():
+            nm = getattr(v, 'attrs', {}).get('name')
+            if nm is not None and not same(nm, k):
+                problems.append(f'table entry {k!r} is named {nm!r}')
+    unit = p.functions[roles['node_types']]
+    cons = f'{unit.module.name}::{unit.qualname}::the node-type table covers every type that occurs on a node [type-table-covers]'
+    if not problems:
+        out.ok('VW-9', cons, p.loc(unit, unit.node), 'library NodeType, plain string and project (str, Enum) types are covered; untyped nodes skipped')
+    else:
+        out.bad('VW-9', cons, p.loc(unit, unit.node), 'a type that occurs on a node entry has no entry in the node-type table (the viewer '
+                'cannot colour / group it): ' + '; '.join(sorted(set(problems))[:3]))
+
+
+def _viewer_world(nt: ClassInfo):
+    from ..absint import AObj
+
+    def member(cls, value, tag):
+        return AObj(cls, {'value': value, 'name': value, '_value_': value}, tag=tag)
+    lib = member(nt, 'processor', 'NodeType.processor')
+    switch_member = member(nt, 'switch', 'NodeType.switch')
+    custom = member(('ext', 'project.ProjectNodeType'), 'ml_model', 'ProjectNodeType.ml_model')
+
+    def node_cls(name, node_type):
+        return AObj(('ext', 'created-class'), {'__name__': name, 'name': name, 'verbose_name': name, 'node_type': node_type,
+                                               '__module__': 'user', '__generic_class__': None, 'process': 'RUNMETHOD'}, tag=name)
+    node_map = {'processor__a': node_cls('a', lib), 'custom__b': node_cls('b', 'feature'), 'custom__c': node_cls('c', custom),
+                'untyped__d': node_cls('d', None)}
+    return node_map, list(node_map) + ['switch__s'], switch_member
+
+
+def _viewer_stubs(ctx: Ctx, nt: ClassInfo, ci: ClassInfo, switch_member) -> dict:
+    p = ctx.p
+    stubs = {}
+    for m in nt.methods.values():
+        if m.name == 'by_prefix':
+            stubs[m.fid] = lambda interp, a, k, s_: switch_member
+        elif m.name == 'is_generic':
+            stubs[m.fid] = lambda interp, a, k, s_: False
+    for m in ci.methods.values():
+        if any(isinstance(n, ast.Call) and (dotted(n.func) or '').split('.')[-1] in ('getsourcelines', 'findsource', 'getsourcefile')
+               for n in ast.walk(m.node)):
+            stubs[m.fid] = lambda interp, a, k, s_: 'user.py#L1'
+    for u in p.functions.values():
+        if u.parent is None and u.cls is None and u.name == 'get_callable_run_method':
+            stubs[u.fid] = lambda interp, a, k, s_: 'RUNMETHOD'
+    return stubs
+
+
+def rule_generate_total(ctx: Ctx, out: Collector) -> None:
+    """VW-10: generate() itself, interpreted over one DAG (library-typed, string-typed, enum-typed and untyped nodes, a
+    synthetic node, three edges): the description has exactly one node entry per DAG node and one edge entry per DAG edge, the
+    DAG is not written to, and a second call on the same object gives the same description (nothing accumulates)."""
+    from ..absint import AObj, Interp, Oracle, TOP, enumerate_outcomes
+    p = ctx.p
+    ci = _config_class(ctx)
+    gen = ci.methods.get('generate')
+    if gen is None:
+        raise AnalysisError('GraphConfigImpl.generate not found')
+    nt = next((c for c in p.classes_by_name.get('NodeType', []) if c.module.name.endswith('node.enums')), None)
+    if nt is None:
+        raise AnalysisError('NodeType enum not found (VW-10 anchor vanished)')
+    node_map, graph_nodes, switch_member = _viewer_world(nt)
+    edges = {('processor__a', 'custom__b'): {'kwarg_name': 'x'}, ('custom__b', 'switch__s'): {'case_branch': 'k'},
+             ('switch__s', 'custom__c'): {'kwarg_name': 'y'}}
+
+    def run(oracle: Oracle):
+        interp = Interp(p, oracle, stubs=_viewer_stubs(ctx, nt, ci, switch_member), ext_stubs={'inspect.getdoc': lambda a, k: 'doc'})
+        graph = AObj(('ext', 'networkx.DiGraph'), {'nodes': {n: {} for n in graph_nodes}, 'edges': {k: dict(v) for k, v in edges.items()}})
+        dag = AObj(('ext', 'DAG'), {'graph': graph, 'node_map': dict(node_map)})
+        init = p.lookup_method(ci, '__init__')
+        obj = AObj(ci, {})
+        if init is not None:
+            interp.call_unit(init, [dag], {}, obj)
+        else:
+            obj.attrs['_dag'] = dag
+        first = interp.call_unit(gen, ['name'], {}, obj)
+        second = interp.call_unit(gen, ['name'], {}, obj)
+        return first, second, graph
+
+    def shape(desc):
+        if not isinstance(desc, AObj):
+            return None
+        ns, es = desc.attrs.get('nodes'), desc.attrs.get('edges')
+        if not isinstance(ns, (list, tuple)) or not isinstance(es, (list, tuple)):
+            return None
+        return (sorted(str(getattr(n, 'attrs', {}).get('id')) for n in ns),
+                sorted((str(getattr(e, 'attrs', {}).get('source')), str(getattr(e, 'attrs', {}).get('target'))) for e in es),
+                sorted(map(repr, desc.attrs.get('node_types') or {})) if isinstance(desc.attrs.get('node_types'), dict) else None)
+    problems = []
+    for o in enumerate_outcomes(run):
+        if o[0] != 'value':
+            problems.append(f'generate() fails for a buildable DAG: {o[1]}')
+            continue
+        first, second, graph = o[1]
+        a, b = shape(first), shape(second)
+        if a is None:
+            raise AnalysisError('generate() does not return a description with node and edge lists (VW-10 undecided)')
+        if a[0] != sorted(graph_nodes):
+            problems.append(f'node entries {a[0]} for the DAG nodes {sorted(graph_nodes)}')
+        if a[1] != sorted((str(u), str(v)) for u, v in edges):
+            problems.append(f'edge entries {a[1]} for the DAG edges {sorted(edges)}')
+        if b != a:
+            problems.append(f'a second generate() on the same object differs from the first (nodes {len(b[0]) if b else "?"} vs {len(a[0])}): '
+                            f'the description accumulates state between calls')
+        if sorted(graph.attrs['nodes']) != sorted(graph_nodes) or set(graph.attrs['edges']) != set(edges) \
+                or any(graph.attrs['edges'][e] != edges[e] for e in edges) or any(v for v in graph.attrs['nodes'].values()):
+            problems.append('generating the description changed the DAG')
+    cons = f'{gen.module.name}::{gen.qualname}::one entry per node and per edge, idempotent, the DAG untouched [generate-total]'
+    if not problems:
+        out.ok('VW-10', cons, p.loc(gen, gen.node), f'{len(graph_nodes)} nodes, {len(edges)} edges, two calls')
+    else:
+        out.bad('VW-10', cons, p.loc(gen, gen.node), 'the generated description is not a faithful projection of the DAG: '
+                + '; '.join(sorted(set(problems))[:3]))
